@@ -72,6 +72,8 @@ def run_one(args):
         S.reset()
         from . import helpers
         helpers.deactivate()
+        from . import sx as _sx
+        _sx.SYMBOLIC_PI[0] = True
         del spshim.SOLVES[:]
         env = core.Env("sym", seed=seed, ranges=jb.ranges)
         jb.fn(env, **kw)
